@@ -136,4 +136,36 @@ Qed.
 
 
 
+(* ---- Response::parse_with_config as translated = Api.response_with_config ---- *)
+Definition fin_respw (r : ires L_g_response_with_config nat unit nat) : rp_res :=
+  let rp l := mkresp (g_response_with_config_self_version l) (g_response_with_config_self_code l)
+                     (g_response_with_config_self_reason l) (g_response_with_config_self_headers l) in
+  match r with
+  | IDone n l _ => (Complete n, rp l, g_response_with_config_v_mem l)
+  | IPart l => (Partial, rp l, g_response_with_config_v_mem l)
+  | IFail e l => (Error e, rp l, g_response_with_config_v_mem l)
+  | IFault f l => (Faulted f, rp l, g_response_with_config_v_mem l)
+  | IExc _ l _ => (Faulted Unreachable, rp l, g_response_with_config_v_mem l)
+  end.
+
+Theorem tie_response_with_config cf buf rp x y :
+  fin_respw (ifun (g_response_with_config_body E (S (length buf)) cf buf)
+                  (g_response_with_config_init (p_version rp) (p_code rp) (p_reason rp) (p_hdrs rp) x y)
+                  (cur_new buf))
+  = response_with_config E cf buf rp.
+Proof.
+  destruct rp as [v0 c0 r0 h0]. unfold response_with_config. cbn [p_version p_code p_reason p_hdrs].
+  rewrite <- (tie_response_core cf buf (mkresp v0 c0 r0 []) h0). cbn [p_version p_code p_reason p_hdrs].
+  unfold g_response_with_config_body, g_response_with_config_init.
+  cbv beta iota delta [ifun ibind iget iset isub_catch iret ireturn ithrow ipart ifail
+                       set_g_response_with_config_v_mem set_g_response_with_config_self_headers
+                       set_g_response_with_config_v_headers
+                       g_response_with_config_self_version g_response_with_config_self_code
+                       g_response_with_config_self_reason g_response_with_config_self_headers
+                       g_response_with_config_v_headers g_response_with_config_v_mem].
+  match goal with |- context [g_response_core_body E (S (length buf)) cf buf ?l0 (cur_new buf)] =>
+    destruct (g_response_core_body E (S (length buf)) cf buf l0 (cur_new buf)) as [n l c|l|e l|f l|[k v|k|r] l c] end;
+    cbn [fin_resp fin_respw]; reflexivity.
+Qed.
+
 End ApiTie.
